@@ -6,7 +6,7 @@ V = os.path.dirname(os.path.dirname(os.path.abspath(__file__)))
 CLAIMED = {
  "C02": dict(
    technique="bounded model checking of the compiled conversion and reducer kernels (Kani/CBMC, full i128 range) + symbolic execution of the MIR (mirsym/z3) for container-backed sites",
-   text="For every i128 value, each numeric conversion site of the Cardano compiler (lovelace, native asset, mint, burn, validity slots, metadata integers) and each scalar operation of the reducer (add, neg, None as zero) returns the exact mathematical value or an error: decided by CBMC over the compiled code, not sampled. Bounded model checking, not proof: loops unwound to stated bounds, shapes concrete.",
+   text="For every i128 value, each numeric conversion site of the Cardano compiler (lovelace, native asset, mint, burn, validity slots, metadata integers) and each scalar operation of the reducer (add, neg, None as zero) returns the exact mathematical value or an error: decided by CBMC over the compiled code, not sampled. Bounded model checking, not proof: loops unwound to stated bounds, shapes concrete. Added: the value aggregation of an output (two lovelace entries, one token named twice) and of the mint field (two mints, two burns, a mint and a burn of one asset class) is exact or an error; withdrawal amount, donation and metadata label over the whole i128 range; datum / redeemer integers (K harnesses of C09 cross-listed); a UTxO is consumed once and counted once through the resolver (C04 harness cross-listed).",
    note="Kani 0.68/CBMC 6.11; stubs: std::fmt::format, hex::encode (error text). Two known findings (negative lovelace wraps, negative token dropped) are recorded because the repository's own tests rely on them.",
    design="§3 C02"),
  "C05": dict(
@@ -16,12 +16,12 @@ CLAIMED = {
    design="§3 C05"),
  "C09": dict(
    technique="bounded model checking of the Plutus Data conversions (Kani/CBMC)",
-   text="For every constructor index in the usize range and every i128, the datum path (compile_data_expr/compile_struct) and the redeemer path (try_as_data) produce the Plutus Data structure the convention prescribes (tags 121-127 / 1280-1400 / 102+index; Int or bignum with exact magnitude); byte-like leaves of length 0..5 are preserved. Solver verdict over all values within the bounds.",
+   text="For every constructor index in the usize range and every i128, the datum path (compile_data_expr/compile_struct) and the redeemer path (try_as_data) produce the Plutus Data structure the convention prescribes (tags 121-127 / 1280-1400 / 102+index; Int or bignum with exact magnitude); byte-like leaves of length 0..5 are preserved. Solver verdict over all values within the bounds. Added: field order decided by the front end - corpus programs with out-of-order fields, spreads and variant cases run through the real parse/analyze/lower and then the back end from MIR.",
    note="pallas' CBOR emission of the PlutusData structure is trusted; nested shapes are outside K (see DESIGN.md).",
    design="§3 C09"),
  "C14": dict(
    technique="bounded model checking for absence of panics (Kani/CBMC), symbolic lengths 0..=33",
-   text="No feasible panic in the hash/policy/key-hash/script-address constructors for byte strings of every length 0..33, in integer-to-data conversion for every i128, in mint/burn amounts for every i128. CBMC checks every implicit panic site (unwrap, index, overflow, slice copy) on the compiled code.",
+   text="No feasible panic in the hash/policy/key-hash/script-address constructors for byte strings of every length 0..33, in integer-to-data conversion for every i128, in mint/burn amounts for every i128. CBMC checks every implicit panic site (unwrap, index, overflow, slice copy) on the compiled code. Added (engine M): every chain-specific directive with each field absent or of any of 16 expression kinds; every coercion function of tx3-cardano on 33 expression kinds; IntoDatum / IntoAssets of an input bound to 0..2 UTxOs; input selection over a wallet wider than the search window.",
    note="Kani/CBMC; stubs: std::fmt::format, hex::encode, ByronAddress::to_vec.",
    design="§3 C14"),
  "C15": dict(
@@ -31,27 +31,27 @@ CLAIMED = {
    design="§3 C15"),
  "C19": dict(
    technique="symbolic execution of the MIR of the parse-error conversion (mirsym -> z3) against pest's location contract",
-   text="For every input length 0..12 and every location pest can report (Pos / Span with symbolic absolute offsets within the input), the parse error built by the real code carries a source text and a span with start <= end <= len(text), the text being the very input the offsets refer to; the display-span conversion does not underflow. Bounded model checking over the conversion functions; analysis-error spans and UTF-8 boundaries are outside.",
+   text="For every input length 0..12 and every location pest can report (Pos / Span with symbolic absolute offsets within the input), the parse error built by the real code carries a source text and a span with start <= end <= len(text), the text being the very input the offsets refer to; the display-span conversion does not underflow. Bounded model checking over the conversion functions; analysis-error spans and UTF-8 boundaries are outside. Added: the label rendered for a parse error covers exactly the span; pest's line/column contract; the analyzer's two not-in-scope sites (Identifier, VariantCaseConstructor) executed from MIR: the diagnostic carries the name's own span and text.",
    note="pest's Error object is a contract model (field order read from the pinned pest source); mirsym interpreter + std models trusted.",
    design="§3 C19"),
  "C08": dict(
    technique="symbolic execution of the MIR of the redeemer and body assembly (mirsym -> z3) with symbolic transaction ids, output indices and policy ids",
-   text="For 2-3 script inputs and 2-3 mint/burn blocks whose txid byte, output index (u32) and policy byte are symbolic - every relative order - the real compile_tx_body + compile_redeemers are executed from MIR and the emitted (tag, index) -> data map is shown equal to the map obtained by ranking each item among the ledger-sorted inputs / policies: one redeemer per guarded item, at the index of that item. Bounded: <= 3 items per kind, integer redeemer data.",
+   text="For 2-3 script inputs and 2-3 mint/burn blocks whose txid byte, output index (u32) and policy byte are symbolic - every relative order - the real compile_tx_body + compile_redeemers are executed from MIR and the emitted (tag, index) -> data map is shown equal to the map obtained by ranking each item among the ledger-sorted inputs / policies: one redeemer per guarded item, at the index of that item. Bounded: <= 3 items per kind, integer redeemer data. Added: a policy whose mint and burn cancel while carrying redeemers, next to another minted policy.",
    note="mirsym + std/pallas models (BTreeMap as ordered association list, sort with forked comparisons). Withdrawal redeemers and multi-UTxO inputs: see known findings / DESIGN.",
    design="§3 C08"),
  "C03": dict(
    technique="symbolic execution of the MIR of query canonicalisation, search-space narrowing and coin selection (mirsym -> z3), async state machines driven against a store model with symbolic contents, every candidate order",
-   text="For stores of 2 (quick) / 3 (thorough) UTxOs whose address, lovelace, token presence and token amount are symbolic, and every query shape reachable from the language (address none/A/B x ref none/own/dangling x min_amount over lovelace and one token x single/many x input/collateral), the real narrowing + selection code is executed from MIR on every path and every candidate order; z3 shows that each bound UTxO satisfies every stated constraint (soundness) and that an empty result implies no covering candidate exists (completeness).",
-   note="UtxoStore is a contract model; sort_candidates (floats) is replaced by all permutations; amounts below 2^16 (quick) / 2^40 (thorough); window of 50 not binding.",
+   text="For stores of 2 (quick) / 3 (thorough) UTxOs whose address, lovelace, token presence and token amount are symbolic, and every query shape reachable from the language (address none/A/B x ref none/own/dangling x min_amount over lovelace and one token x single/many x input/collateral), the real narrowing + selection code is executed from MIR on every path and every candidate order; z3 shows that each bound UTxO satisfies every stated constraint (soundness) and that an empty result implies no covering candidate exists (completeness). Added: 3-candidate stores in the quick tier for the accumulation and trimming steps of the multi-UTxO picker (6-bit amounts quick, 40-bit thorough).",
+   note="UtxoStore is a contract model; sort_candidates (floats) is replaced by all permutations; amounts below 2^16 (quick) / 2^40 (thorough); window of 50 not binding. A change that routes selection through the f64 log-compression (`map_i128_to_u32_log`) leaves the check inconclusive: floating point is not modelled.",
    design="§3 C03"),
  "C04": dict(
    technique="symbolic execution of the MIR of inputs::resolve (async) and compile_inputs (mirsym -> z3) on templates with overlapping input blocks",
-   text="For templates with 2-3 input blocks whose queries overlap (same party, ref into the party's UTxOs, collateral) over a store with symbolic contents, the real resolve (one selector, ignore set, apply_inputs) is executed from MIR on every path and candidate order: z3-checked obligations show the bound sets pairwise disjoint, every resolved block non-empty, and the flattened input list of the real compile_inputs to contain each selected UTxO exactly once.",
+   text="For templates with 2-3 input blocks whose queries overlap (same party, ref into the party's UTxOs, collateral) over a store with symbolic contents, the real resolve (one selector, ignore set, apply_inputs) is executed from MIR on every path and candidate order: z3-checked obligations show the bound sets pairwise disjoint, every resolved block non-empty, and the flattened input list of the real compile_inputs to contain each selected UTxO exactly once. Added: the body's input list when a reference or collateral input names a selected UTxO; a concrete wallet of 51 / 70 UTxOs so that the real MAX_SEARCH_SPACE_SIZE (50) is reached.",
    note="same store model and bounds as C03; block names concrete.",
    design="§3 C04"),
  "C06": dict(
    technique="symbolic execution of the MIR of the Composite/Apply traversals and of safe_apply_args (mirsym -> z3), one template per leaf position, independent structural walk as oracle",
-   text="For 53 template positions (every Tx field, every Expression container, every BuiltInOp / Coerce / CompilerOp operand, the fields of a nested input query, `fees` and inputs nested in expressions) the real find_params / find_queries report exactly the leaves an independent walk of the value tree finds, and after the real apply_args / apply_inputs / apply_fees (3 stage orders, symbolic argument and fee) and reduce the walk finds no unresolved parameter; safe_apply_args refuses with MissingTxArg naming a missing parameter exactly when a reported parameter is absent, for all 128 argument maps over 3 declared + 4 undeclared keys (presence symbolic).",
+   text="For 53 template positions (every Tx field, every Expression container, every BuiltInOp / Coerce / CompilerOp operand, the fields of a nested input query, `fees` and inputs nested in expressions) the real find_params / find_queries report exactly the leaves an independent walk of the value tree finds, and after the real apply_args / apply_inputs / apply_fees (3 stage orders, symbolic argument and fee) and reduce the walk finds no unresolved parameter; safe_apply_args refuses with MissingTxArg naming a missing parameter exactly when a reported parameter is absent, for all 128 argument maps over 3 declared + 4 undeclared keys (presence symbolic). Added: the datum of an input and `fees` as leaves at every transaction field; queries closed with the empty UTxO set.",
    note="mirsym + std models; structure of each template concrete, values symbolic; depth <= 3.",
    design="§3 C06"),
  "C07": dict(
@@ -61,23 +61,23 @@ CLAIMED = {
    design="§3 C07"),
  "C10": dict(
    technique="symbolic execution of the MIR of entry_point, compile_mint_block, compile_witness_set and Compiler::compile (mirsym -> z3) with encoders and digests as uninterpreted functions and hash-container iteration order explored exhaustively",
-   text="Structure-level self-consistency: over 144 template shapes (network x metadata x redeemers x witness scripts x signers x references) the emitted body carries the configured network id, auxiliary-data and script-data hashes exactly when metadata / redeemers are present and taken of the very values that are emitted, no empty set-like field; for all mint/burn amounts below 2^62 the net quantity is exact and cancelling amounts leave neither a zero quantity nor an empty policy nor an empty mint map; witness-script order is independent of hash iteration order; Compiler::compile reports the hash of the body it serialises, remembers that body, and reports the size fee of the returned payload.",
+   text="Structure-level self-consistency: over 144 template shapes (network x metadata x redeemers x witness scripts x signers x references) the emitted body carries the configured network id, auxiliary-data and script-data hashes exactly when metadata / redeemers are present and taken of the very values that are emitted, no empty set-like field; for all mint/burn amounts below 2^62 the net quantity is exact and cancelling amounts leave neither a zero quantity nor an empty policy nor an empty mint map; witness-script order is independent of hash iteration order; Compiler::compile reports the hash of the body it serialises, remembers that body, and reports the size fee of the returned payload. Added: signers, reference inputs and collateral inputs written twice appear once, in an order independent of hash iteration; redeemers on a withdrawal / on a spent input as cases of the presence checks.",
    note="byte-level well-formedness, digest values and decoder acceptance are outside (encoders/digests uninterpreted); pallas constructors are contracts.",
    design="§3 C10"),
  "C16": dict(
    technique="symbolic execution of the MIR of the JSON coercions, envelope decoding and request assembly (mirsym -> z3) over strings of symbolic bytes with text-primitive models",
-   text="from_json inverts the documented encodings for every value within the bounds: every i128 through 0x + 32 hex digits (both cases), decimal strings of 1-6 digits with optional sign, every JSON integer, the five boolean forms (and nothing else among all 4/5-character strings and all integers), 0-3 bytes as bare and 0x hex, txid#index with 1-4 digit indices; for every string of up to 4 (quick) / 6 (thorough) printable ASCII characters and every target type the result is Ok only for a documented encoding and never a panic; envelope decoding never panics for any content of up to 4 characters; parse_resolve_request hands over exactly the declared parameters that args or env supply (presence of each key symbolic), coerced by declared type.",
+   text="from_json inverts the documented encodings for every value within the bounds: every i128 through 0x + 32 hex digits (both cases), decimal strings of 1-6 digits with optional sign, every JSON integer, the five boolean forms (and nothing else among all 4/5-character strings and all integers), 0-3 bytes as bare and 0x hex, txid#index with 1-4 digit indices; for every string of up to 4 (quick) / 6 (thorough) printable ASCII characters and every target type the result is Ok only for a documented encoding and never a panic; envelope decoding never panics for any content of up to 4 characters; parse_resolve_request hands over exactly the declared parameters that args or env supply (presence of each key symbolic), coerced by declared type. Added: addresses as hex; {content, encoding} byte envelopes; every JSON kind x 11 target types; multi-byte UTF-8 text (str slicing off a char boundary panics in the model as in std); ill-formed values of declared parameters under args or env are refused. Counterexamples of the from_json harnesses are replayed on the native binary before they are reported.",
    note="string primitives (starts_with, strip_prefix, trim_start_matches, split_once, hex::decode, from_str_radix, parse) are models; base64 / bech32 / ciborium are uninterpreted; serde_json parsing happens before this code.",
    design="§3 C16"),
  "C01": dict(
    technique="translation validation per corpus program: real front end run natively, back end executed symbolically from MIR (mirsym -> z3), body compared with a hand-written denotation",
    category="translation_validation",
-   text="13 corpus programs (integer arithmetic with left-nested and parenthesised subtraction and negation, multi-asset arithmetic, input datum with spread, out-of-order record fields and variant cases, mint/burn/validity/signers/metadata/reference/collateral, net mint of several blocks, list index / concat / list / map literals, indexed access into an input datum, locals and env, a policy read as address / bytes / asset, time/slot built-ins, two inputs) x 3 whitespace/comment layouts are parsed, analysed and lowered by the repository's own front end; the lowered TIR is then applied, reduced and compiled by the real back end executed from MIR with arguments, UTxO amounts and fee symbolic, and z3 shows every output (address, lovelace, per-class native assets, datum tree, order), mint quantity, validity bound, signer, reference, collateral, input, metadata entry and the fee equal to the denotation written by hand for that program.",
-   note="programs are enumerated (the corpus), not solver-quantified; amounts below 2^16 (quick) / 2^40 (thorough); one UTxO per input; min_utxo and byte-level CBOR outside.",
+   text="20 corpus programs (integer arithmetic with left-nested and parenthesised subtraction and negation, multi-asset arithmetic, input datum with spread, out-of-order record fields and variant cases, mint/burn/validity/signers/metadata/reference/collateral, net mint of several blocks, list index / concat / list / map literals, indexed access into an input datum, locals and env, a policy read as address / bytes / asset, time/slot built-ins before and after the chain tip, two inputs, a metadata integer over the whole i128 range, datum fields used in validity / signers / metadata, min_utxo of a named output behind anonymous and optional outputs incl. a second pass, withdrawal and donation, publish with reference script, vote-delegation certificate, asset definitions, aliases, a many-input, a burn, two transactions whose names differ in case) x 3 whitespace/comment layouts are parsed, analysed and lowered by the repository's own front end; the lowered TIR is then applied, reduced and compiled by the real back end executed from MIR with arguments, UTxO amounts and fee symbolic, and z3 shows every output (address, lovelace, per-class native assets, datum tree, order), mint quantity, validity bound, signer, reference, collateral, input, metadata entry and the fee equal to the denotation written by hand for that program.",
+   note="programs are enumerated (the corpus), not solver-quantified; counterexamples about outputs, fee and validity are replayed on the native binary (it must observe what engine M computed) before they are reported; one known finding (min_utxo of an output behind an omitted optional output); amounts below 2^16 (quick) / 2^40 (thorough); one UTxO per input; min_utxo and byte-level CBOR outside.",
    design="§3 C01, §A.6"),
  "C20": dict(
    technique="symbolic execution of the MIR of resolve_tx / eval_pass with the real Cardano Compiler (compile, reduce_op, compute_min_utxo) run twice - fresh vs. arbitrary left-over state - and structural comparison of the two outcomes (mirsym -> z3); differences resting on uninterpreted encoded lengths are decided by native replay",
-   text="For a template sizing output k in {0,1} with min_utxo and paying `fees`, resolve_tx (<= 5 passes) is executed from MIR on a fresh Compiler and on one whose latest_tx_body is arbitrary (absent, or a body with 0..2 arbitrary outputs): both runs end Ok with structurally equal payload, hash and fee terms, or Err of the same kind, on every path (z3 unsat per obligation). Bounded: one field of state (the only one compile() writes), templates of two outputs without inputs, max_optimize_rounds = 3.",
+   text="For a template sizing output k in {0,1} with min_utxo and paying `fees`, resolve_tx (<= 5 passes) is executed from MIR on a fresh Compiler (built by the real constructor) and on one whose latest_tx_body is arbitrary (absent, or a body with 0..2 arbitrary outputs) or that really resolved an earlier template before (succeeding, or using min_utxo and failing in its second pass); a second harness resolves a target with an input over a store of one UTxO of symbolic value: both runs end Ok with structurally equal payload, hash and fee terms, or Err of the same kind, on every path (z3 unsat per obligation). Bounded: one field of state (the only one compile() writes), templates of two outputs without inputs, max_optimize_rounds = 3.",
    note="CBOR encoders / digests are injective uninterpreted functions and encoded lengths uninterpreted: a difference between two Ok outcomes is reported only when the native replay binary reproduces it with a concrete earlier template; Ok-vs-Err differences are definite.",
    design="§3 C20, §A.7"),
  "C17": dict(
